@@ -59,6 +59,11 @@ CLAIMS = {
               "yields a tombstone with a deletion event; stored expiry = absolute(exp) / preserved / cleared per entry point. That the Go "
               "timer goroutine fires within seconds of the deadline is assumed; a real-time slice (2 s expiries, real clock) exercises it.",
               note="Partial: timer latency is a runtime assumption."),
+ "C19": claim("Proved on the model: the keyspace of a collection is exactly one row (current id, body, xattrs) per stored row of that collection "
+              "that has a body; queries over a collection are unaffected by operations that leave it alone; the iterator hands out each row "
+              "once and stays exhausted. SQLite's evaluation of the statement is trusted; 6 family members have Lean twins and are "
+              "diffed on both bucket kinds, and a monitor compares every result with the KV read-back.",
+              note="Partial: SQL evaluation itself is trusted."),
  "C18": claim("Proved on the JSON object model: a set/remove at any dotted path preserves every other property, the addressed path then "
               "evaluates to the value (or is gone), SubdocInsert refuses an existing property and a missing document, a supplied CAS is "
               "honoured, and the call is a pure read+edit plan followed by one WriteCas conditional on the CAS read (so by C02 no concurrent "
